@@ -21,6 +21,43 @@ BASE = 'asn1tools/codecs/compiler.py'
 SIZE_KINDS = {'SEQUENCE OF', 'SET OF', 'OCTET STRING', 'BIT STRING'}
 
 
+def containers_recurse(model, rel):
+    """For the container classes of a checker module (Dict, List, Choice, Recursive): does encode -- or a helper of the object it calls -- hand every
+    child to the child's encode, for Dict and List inside a loop over the whole collection (self.members / the data)?  -> [(class name, collection, encode, ok)]"""
+    from .. import defaults
+    out = []
+    for cn, coll, recv in (('Dict', 'self.members', None), ('List', 'DATA', 'self.element_type'), ('Choice', None, None), ('Recursive', None, None)):
+        ccls = model.cls(rel, cn)
+        f = ccls.find_method('encode')[1]
+        # encode and the methods of the object it reaches through self
+        reach = [f]
+        for g_ in reach:
+            for c_ in walk_no_nested(g_):
+                if isinstance(c_, ast.Call) and isinstance(c_.func, ast.Attribute) and isinstance(c_.func.value, ast.Name) and c_.func.value.id == 'self':
+                    r_ = ccls.find_method(c_.func.attr)
+                    if r_ and r_[1] not in reach and len(reach) < 8:
+                        reach.append(r_[1])
+        es = defaults.EncodeSites(ccls)
+        ok = False
+        for g_, node, r_, _why, _how, _conds in es.sites:
+            if g_ not in reach:
+                continue
+            if recv is not None and r_ != recv:
+                continue
+            if coll is None:
+                ok = True
+                continue
+            dparam = flow.param_names(g_)[1] if len(flow.param_names(g_)) > 1 else None
+            want_iter = dparam if coll == 'DATA' else coll
+            for anc in flow.ancestors(node):
+                if isinstance(anc, (ast.For, ast.comprehension)) and ast.unparse(anc.iter) == want_iter:
+                    ok = True
+                if isinstance(anc, (ast.ListComp, ast.GeneratorExp, ast.SetComp)) and any(ast.unparse(g2.iter) == want_iter for g2 in anc.generators):
+                    ok = True
+        out.append((cn, coll, f, ok))
+    return out
+
+
 def check(ctx):
     model = ctx.model
     cc = model.mod(CC)
@@ -135,27 +172,7 @@ def check(ctx):
         ctx.violation('C11.R1', CC, f, 'constraints_checker.String.encode', 'the alphabet test does not visit every character of data', stmt='alphabet loop')
     # containers recurse: the child's encode is called (directly or through a helper that is handed the child) -- for Dict and List inside
     # a loop over the collection
-    from .. import defaults
-    for cn, coll, recv in (('Dict', 'self.members', None), ('List', 'DATA', 'self.element_type'), ('Choice', None, None), ('Recursive', None, 'self.inner')):
-        ccls = model.cls(CC, cn)
-        f = ccls.find_method('encode')[1]
-        dparam = flow.param_names(f)[1] if len(flow.param_names(f)) > 1 else None
-        es = defaults.EncodeSites(ccls)
-        ok = False
-        for g_, node, r_, _why, _how, _conds in es.sites:
-            if g_ is not f:
-                continue
-            if recv is not None and r_ != recv:
-                continue
-            if coll is None:
-                ok = True
-                continue
-            want_iter = dparam if coll == 'DATA' else coll
-            for anc in flow.ancestors(node):
-                if isinstance(anc, (ast.For, ast.comprehension)) and ast.unparse(anc.iter) == want_iter:
-                    ok = True
-                if isinstance(anc, (ast.ListComp, ast.GeneratorExp, ast.SetComp)) and any(ast.unparse(g2.iter) == want_iter for g2 in anc.generators):
-                    ok = True
+    for cn, coll, f, ok in containers_recurse(model, CC):
         ctx.instance('C11.R1', '%s.encode recurses into its children' % cn, 'ok' if ok else 'VIOLATION', node=f, file=CC)
         if not ok:
             ctx.violation('C11.R1', CC, f, 'constraints_checker.%s.encode' % cn, 'container does not check every child (encode over %s)' % (coll or 'the selected member'), stmt='recursion')
